@@ -57,9 +57,21 @@ func sorted(ids []party.ID) []party.ID {
 
 // A StartFunc must not be reused for a second handler (FROST keygen's closure keeps state from the first
 // call and would start the second one in refresh mode), so makers build a fresh one every time.
+// ReuseStartFuncs: when set, a Maker keeps the first StartFunc it built and hands the SAME function value to every later
+// handler (an application that holds on to its start function and runs a second session with it).
+var ReuseStartFuncs bool
+
 func multi(mk func() protocol.StartFunc, sid []byte) Maker {
+	var kept protocol.StartFunc
 	return func() (protocol.Handler, error) {
-		h, err := protocol.NewMultiHandler(mk(), sid)
+		sf := mk()
+		if ReuseStartFuncs {
+			if kept == nil {
+				kept = sf
+			}
+			sf = kept
+		}
+		h, err := protocol.NewMultiHandler(sf, sid)
 		if err != nil {
 			return nil, err
 		}
@@ -68,8 +80,16 @@ func multi(mk func() protocol.StartFunc, sid []byte) Maker {
 }
 
 func two(mk func() protocol.StartFunc, sid []byte, leader bool) Maker {
+	var kept protocol.StartFunc
 	return func() (protocol.Handler, error) {
-		h, err := protocol.NewTwoPartyHandler(mk(), sid, leader)
+		sf := mk()
+		if ReuseStartFuncs {
+			if kept == nil {
+				kept = sf
+			}
+			sf = kept
+		}
+		h, err := protocol.NewTwoPartyHandler(sf, sid, leader)
 		if err != nil {
 			return nil, err
 		}
